@@ -26,23 +26,58 @@ def _symbolic(x):
     return isinstance(x, (SymSeq, SymDict)) and not (isinstance(x, SymSeq) and x.concrete_len())
 
 
-def _register_fold(p, F, term_at, unit, op):
-    """axioms of the fold on the current path + instantiation at the known loop indices"""
-    reg = p.ghost.setdefault("folds", {})
-    key = F.name()
-    if key in reg:
-        return
-    reg[key] = (F, term_at, op)
-    p.assume(F(0) == unit)
+def _extensionality(p, F, tF, G, tG, n):
+    """fold extensionality at length n (a theorem of the two recurrences, by induction on n; added as a lemma because the solver does no induction):
+    if the terms agree at every index below n, the folds agree at n"""
     j = z3.Int(fresh_name("j"))
-    tj = to_z3(term_at(Sym(j)))
-    if op == "+":
-        body = F(j + 1) == F(j) + tj
-    else:
-        body = F(j + 1) == F(j) * tj
-    p.assume(z3.ForAll([j], z3.Implies(j >= 0, body), patterns=[F(j + 1)]))
-    for pt in p.ghost.get("fold_points", []):
-        _instantiate(p, F, term_at, op, pt)
+    with p.bound(z3.And(j >= 0, j < n)):
+        a, b = to_z3(tF(Sym(j))), to_z3(tG(Sym(j)))
+    if a.sort() != b.sort():
+        if z3.is_int(a) and z3.is_real(b):
+            a = z3.ToReal(a)
+        elif z3.is_real(a) and z3.is_int(b):
+            b = z3.ToReal(b)
+        else:
+            return
+    fa, fb = F(n), G(n)
+    if fa.sort() != fb.sort():
+        fa = z3.ToReal(fa) if z3.is_int(fa) else fa
+        fb = z3.ToReal(fb) if z3.is_int(fb) else fb
+    p.assume(z3.Implies(z3.ForAll([j], z3.Implies(z3.And(j >= 0, j < n), a == b)), fa == fb))
+
+
+def _register_fold(p, F, term_at, unit, op, length=None):
+    """axioms of the fold on the current path (recurrence for the indices below the length of the sequence it is used for) + instantiation at the
+    known loop indices + extensionality against the other folds of the path"""
+    reg = p.ghost.setdefault("folds", {})
+    lens = p.ghost.setdefault("fold_lengths", {})
+    key = F.name()
+    is_new = key not in reg
+    new_len = None
+    if length is not None:
+        ln = to_z3(length)
+        mine = lens.setdefault(key, [])
+        if not any(ln.eq(x) for x in mine):
+            mine.append(ln)
+            new_len = ln
+    if is_new:
+        reg[key] = (F, term_at, op)
+        p.assume(F(0) == unit)
+    if new_len is not None:
+        j = z3.Int(fresh_name("j"))
+        with p.bound(z3.And(j >= 0, j < new_len)):
+            tj = to_z3(term_at(Sym(j)))
+        body = F(j + 1) == (F(j) + tj if op == "+" else F(j) * tj)
+        p.assume(z3.ForAll([j], z3.Implies(z3.And(j >= 0, j < new_len), body), patterns=[F(j + 1)]))
+    for k2, (G, tG, op2) in list(reg.items()):
+        if k2 == key or op2 != op:
+            continue
+        for ln in ((lens.get(k2, []) + lens.get(key, [])) if is_new else ([new_len] if new_len is not None else [])):
+            if not z3.is_int_value(ln):
+                _extensionality(p, F, term_at, G, tG, ln)
+    if is_new:
+        for pt in p.ghost.get("fold_points", []):
+            _instantiate(p, F, term_at, op, pt)
 
 
 def _instantiate(p, F, term_at, op, pt):
@@ -62,7 +97,8 @@ def add_fold_point(p, pt):
 
 def _fold(seq, unit, op, tag):
     p = cur()
-    t = to_z3(seq.at(Sym(_J)))
+    with p.bound(z3.And(_J >= 0, _J < to_z3(seq.sym_len()))):
+        t = to_z3(seq.at(Sym(_J)))
     srt = t.sort()
     if srt == z3.BoolSort():
         t = z3.If(t, z3.IntVal(1), z3.IntVal(0))
@@ -73,7 +109,7 @@ def _fold(seq, unit, op, tag):
         F = z3.Function("%s!%d" % (tag, len(_fold_cache)), z3.IntSort(), srt)
         _fold_cache[key] = F
     u = z3.IntVal(unit) if srt == z3.IntSort() else z3.RealVal(unit)
-    _register_fold(p, F, seq.at, u, op)
+    _register_fold(p, F, seq.at, u, op, seq.sym_len())
     return F
 
 
@@ -141,8 +177,10 @@ def forall(coll, pred):
         return wrap(z3.ForAll([k], z3.Implies(z3.Select(coll.dom, k), body)))
     if isinstance(coll, SymSeq) and not coll.concrete_len():
         j = z3.Int(fresh_name("j"))
-        body = to_z3(pred(coll.at(Sym(j))))
-        return wrap(z3.ForAll([j], z3.Implies(z3.And(j >= 0, j < to_z3(coll.sym_len())), body)))
+        rng = z3.And(j >= 0, j < to_z3(coll.sym_len()))
+        with cur().bound(rng):
+            body = to_z3(pred(coll.at(Sym(j))))
+        return wrap(z3.ForAll([j], z3.Implies(rng, body)))
     if isinstance(coll, dict):
         return conj([pred(k, v) for k, v in coll.items()])
     return conj([pred(x) for x in coll])
